@@ -51,9 +51,12 @@ VARIABLES pc,        \* g -> [op, p, i]   op = "idle" between operations; path p
           badunlock, \* Unlock/RUnlock of a mutex not held that way (Go: fatal error)
           resets,    \* some "nil"/"other" store happened
           appended,  \* set of <<v, id>> whose append store was executed
+          torn,      \* some operation loaded a variable again, in a LATER critical section, and what it had loaded before
+                     \* is not a prefix of what it finds now: its result is put together from two logs that never were
+                     \* one log (an accessor whose critical section is split: length read, lock released, contents copied)
           early      \* some operation entered the user's function ("forward") while a store of its own (the record) was still ahead
 
-vars == <<pc, left, mem, snap, lock, cand, accessed, lost, badunlock, resets, appended, early>>
+vars == <<pc, left, mem, snap, lock, cand, accessed, lost, badunlock, resets, appended, early, torn>>
 
 Init == /\ pc = [g \in Gs |-> [op |-> "idle", p |-> 0, i |-> 0]]
         /\ left = [g \in Gs |-> K]
@@ -65,6 +68,7 @@ Init == /\ pc = [g \in Gs |-> [op |-> "idle", p |-> 0, i |-> 0]]
         /\ lost = FALSE /\ badunlock = FALSE /\ resets = FALSE
         /\ appended = {}
         /\ early = FALSE
+        /\ torn = FALSE
 
 OpId(g) == <<g, K - left[g]>>          \* identity of g's running operation (= the argument tuple of that call)
 HeldW(g) == {m \in Mutexes : lock[m].w = g}
@@ -112,7 +116,9 @@ Start(g) == /\ pc[g].op = "idle" /\ left[g] > 0
             /\ \E o \in Alphabet : \E p \in 1..Len(Paths[o]) :
                  /\ pc' = [pc EXCEPT ![g] = [op |-> o, p |-> p, i |-> 1]]
             /\ left' = [left EXCEPT ![g] = @ - 1]
-            /\ UNCHANGED <<mem, snap, lock, cand, accessed, lost, badunlock, resets, appended, early>>
+            /\ UNCHANGED <<mem, snap, lock, cand, accessed, lost, badunlock, resets, appended, early, torn>>
+
+IsPrefix(s, t) == Len(s) <= Len(t) /\ \A i \in 1..Len(s) : s[i] = t[i]
 
 Step(g) ==
   /\ pc[g].op # "idle"
@@ -120,12 +126,17 @@ Step(g) ==
      IF pc[g].i > Len(path)
      THEN /\ pc' = [pc EXCEPT ![g] = [op |-> "idle", p |-> 0, i |-> 0]]
           /\ snap' = [snap EXCEPT ![g] = [v \in Vars |-> << >>]]          \* locals die with the call
-          /\ UNCHANGED <<left, mem, lock, cand, accessed, lost, badunlock, resets, appended, early>>
+          /\ UNCHANGED <<left, mem, lock, cand, accessed, lost, badunlock, resets, appended, early, torn>>
      ELSE /\ Exec(g, path[pc[g].i])
           \* "forward" = the user's function is entered (kept only in the paths of the order configuration): the record of
           \* this very call must already have been appended
           /\ early' = (early \/ (path[pc[g].i].op = "forward"
                                   /\ \E j \in (pc[g].i + 1)..Len(path) : path[j].op = "write"))
+          \* every load of an operation is one atomic step and snap[g] is the local carried between its critical sections:
+          \* what the operation returns is made of ALL its loads (n := len(v) in one section, copy(out, v) in the next), so
+          \* it is one log of the mock only if each later load extends the earlier one (appends in between are harmless,
+          \* a reset in between is not: the result then holds records no call produced / more records than exist)
+          /\ torn' = (torn \/ (path[pc[g].i].op = "read" /\ ~IsPrefix(snap[g][path[pc[g].i].v], mem[path[pc[g].i].v])))
           /\ pc' = [pc EXCEPT ![g].i = @ + 1]
           /\ UNCHANGED left
 
@@ -157,6 +168,9 @@ RecordIsOneCallsArgs == \A v \in Vars : \A i \in 1..Len(mem[v]) : mem[v][i] \in 
 \* the call is recorded BEFORE the user's function is entered: a goroutine that learns from the function that it is
 \* running already finds the call in MCalls(), and a function that panics or never returns does not lose the call
 RecordedBeforeFuncEntered == ~early
+\* "each recorded call holds the arguments of exactly one actual call", applied to what MCalls() RETURNS while resets run:
+\* the loads an operation's result is made of are successive states of one growing log
+ReadsFormOneSnapshot == ~torn
 EveryOpCompletes == <>[]AllDone
 Symm == Permutations(Gs)
 =============================================================================
